@@ -387,10 +387,12 @@ func init() {
 	register(&Property{
 		ID:          "C09",
 		Level:       "other",
-		Explanation: "Decides the structural necessary conditions of 'claim proofs inside a certificate verify against the L1 info root it names': C09-root — in getImportedBridgeExits, for both claim kinds (built only on the matching MainnetFlag branch), the proof to the L1 info root carries the same rootFromWhichToProve value that was passed to GetProofForGER for this claim's GER, the leaf index / inner fields come from that call's leaf (BlockHash ← PreviousBlockHash), the exit roots and exit proofs come from the same claim with each proof rooted at the matching exit root, and the rollup claim's leaf root is CalculateRoot(BridgeExit.Hash(), ProofLocalExitRoot, LeafIndex) of the same exit; C09-count — every store of L1InfoTreeLeafCount in the aggsender is r.Index+1 paired with r.Hash of the same root object, or a copy of both from one stored header, and the certificate copies it from the parameters whose root is the one proofs are built against; C09-leafhash — the syncer's and the Agglayer-side leaf hashes have the contract's layout keccak(ger‖parent hash‖BE64 timestamp) and agree under the field correspondence; C09-ger — the three GER computations are keccak(mainnet‖rollup) in that order, verifyClaimGERs rejects a mismatch and gates VerifyBuildParams. Not decided: that the proof obtained verifies (C08 decides orientation only) and that the finalized root is the latest. Added after round 7: C09-calldata (shared with C20-abi/C20-match), C09-immutable (synced claims are not modified, shared with C01).",
+		Explanation: "Decides the structural necessary conditions of 'claim proofs inside a certificate verify against the L1 info root it names': C09-root — in getImportedBridgeExits, for both claim kinds (built only on the matching MainnetFlag branch), the proof to the L1 info root carries the same rootFromWhichToProve value that was passed to GetProofForGER for this claim's GER, the leaf index / inner fields come from that call's leaf (BlockHash ← PreviousBlockHash), the exit roots and exit proofs come from the same claim with each proof rooted at the matching exit root, and the rollup claim's leaf root is CalculateRoot(BridgeExit.Hash(), ProofLocalExitRoot, LeafIndex) of the same exit; C09-count — every store of L1InfoTreeLeafCount in the aggsender is r.Index+1 paired with r.Hash of the same root object, or a copy of both from one stored header, and the certificate copies it from the parameters whose root is the one proofs are built against; C09-leafhash — the syncer's and the Agglayer-side leaf hashes have the contract's layout keccak(ger‖parent hash‖BE64 timestamp) and agree under the field correspondence; C09-ger — the three GER computations are keccak(mainnet‖rollup) in that order, verifyClaimGERs rejects a mismatch and gates VerifyBuildParams. Not decided: that the proof obtained verifies (C08 decides orientation only) and that the finalized root is the latest. Added after round 7: C09-calldata (shared with C20-abi/C20-match), C09-immutable (synced claims are not modified, shared with C01). Added after round 8: C09-record (shared with C02-store) and C09-wire (shared with C10-wire).",
 		Rules: []Rule{
 			{ID: "C09-calldata", Floor: 24, Run: shared("C09-calldata", c20ABI, c20Match), Text: "(shared with C20-abi/C20-match) the proofs stored with a claim come from the call whose full global index equals the event's"},
 			{ID: "C09-immutable", Floor: 2, Run: shared("C09-immutable", c01Immutable), Text: "(shared with C01-immutable) synced claims are not modified after the downloader built them"},
+			{ID: "C09-record", Floor: 10, Run: shared("C09-record", c02Store), Text: "(shared with C02-store) the stored header keeps root and leaf count of the certificate that was sent: a retry from the stored proof names the same pair"},
+			{ID: "C09-wire", Floor: 40, Run: shared("C09-wire", c10Wire, c10WireUnconditional), Text: "(shared with C10-wire) the L1 leaf and proofs reach the Agglayer in the slots they were built for"},
 			{ID: "C09-root", Floor: 26, Run: c09Root, Text: "[PROV]+[FIELDMAP]+[DOM] claim data literals of both kinds"},
 			{ID: "C09-count", Floor: 4, Run: c09Count, Text: "[PROV] leaf count and root from one object; certificate copies from params"},
 			{ID: "C09-until", Floor: 3, Run: shared("C09-until", c15Until), Text: "(shared with C15-until) 'latest info until block n' = last leaf in chain order with block_num <= n"},
